@@ -104,6 +104,8 @@ pub mod slab_router;
 pub mod snapshot;
 pub mod sparse_vector;
 pub mod tiered;
+#[cfg(feature = "neumann_verif")]
+pub mod verif_hooks;
 pub mod voronoi;
 pub mod wal;
 
